@@ -51,6 +51,9 @@ def rbound_array(rng, shape, dt, lo=None):
         v = (rng.integers(-8, 1, n) / 4.0) if lo is None else (rng.integers(1, 9, n) / 4.0)
         if rng.random() < 0.1:
             v = np.full(n, -np.inf if lo is None else np.inf)
+    if dt in ("int32", "float32") and rng.random() < 0.2:
+        # large-magnitude bounds: neighbouring values are RELATIVELY close (a tolerance-based comparison would confuse them)
+        v = np.asarray(v, np.float64) * float(10 ** int(rng.integers(5, 9)))
     return np.asarray(v, dt).reshape(bshape)
 
 
@@ -181,6 +184,17 @@ def safe(f):
         return ("raises", type(e).__name__)
 
 
+def _tiny_step(x, sign, dt):
+    """the nearest representable neighbour of x in dtype dt, avoiding subnormals (XLA on CPU flushes them to zero, so a
+    subnormal bound IS zero for every jnp comparison; not a difference the property can be about)"""
+    x = np.asarray(x, dt)
+    y = np.nextafter(x, np.asarray(sign * np.inf, dt))
+    tiny = np.finfo(dt).tiny
+    if abs(float(y)) < float(tiny):
+        y = np.asarray(sign * float(tiny) * 4, dt)
+    return y
+
+
 def mutate_spec(rng, sp):
     """same-kind spec differing in exactly one attribute (or an identical rebuild)"""
     import jax.numpy as jnp
@@ -215,9 +229,20 @@ def mutate_spec(rng, sp):
                 if rng.random() < 0.5:  # same bounds, different representation (broadcast)
                     return "bounds-bcast", specs.BoundedArray(sp.shape, sp.dtype, np.broadcast_to(lo, sp.shape), hi, sp.name)
                 hi2 = np.array(np.broadcast_to(hi, sp.shape))
+                lo2 = np.array(np.broadcast_to(lo, sp.shape))
                 if hi2.size:
-                    hi2.reshape(-1)[int(rng.integers(0, hi2.size))] += 1
-                    return what, specs.BoundedArray(sp.shape, sp.dtype, lo, hi2, sp.name)
+                    j = int(rng.integers(0, hi2.size))
+                    if np.dtype(sp.dtype).kind == "f" and rng.random() < 0.6:
+                        # the smallest possible difference: one unit in the last place of ONE element of one bound
+                        if rng.random() < 0.5 and np.isfinite(hi2.reshape(-1)[j]):
+                            hi2.reshape(-1)[j] = _tiny_step(hi2.reshape(-1)[j], +1, sp.dtype)   # one ulp IN THE SPEC'S dtype
+                            return "bounds-ulp", specs.BoundedArray(sp.shape, sp.dtype, lo, hi2, sp.name)
+                        if np.isfinite(lo2.reshape(-1)[j]):
+                            lo2.reshape(-1)[j] = _tiny_step(lo2.reshape(-1)[j], -1, sp.dtype)
+                            return "bounds-ulp", specs.BoundedArray(sp.shape, sp.dtype, lo2, hi, sp.name)
+                    hi2.reshape(-1)[j] += 1
+                    if hi2.reshape(-1)[j] != np.broadcast_to(hi, sp.shape).reshape(-1)[j]:
+                        return what, specs.BoundedArray(sp.shape, sp.dtype, lo, hi2, sp.name)
             if what == "shape":
                 return what, specs.BoundedArray(sp.shape + (1,), sp.dtype, lo[..., None] if lo.ndim else lo, hi[..., None] if hi.ndim else hi, sp.name)
             if what == "dtype" and np.dtype(sp.dtype).kind == "i":
